@@ -75,6 +75,10 @@ class ConcNamer:
                 return r.choice([1, 1, 2, 3, 7]) if r else 1
             return r.randint(-9, 9) if r else 1
         if kind == "real":
+            if name.endswith("_scale"):
+                return Fraction(r.choice([1, 1, 2, 3, 5, 12, 40])) if r else Fraction(3)
+            if name == "sh" or name == "sh_n":
+                return Fraction(r.choice([-17, -3, -2, -1, 0, 1, 2, 3, 9, 40]) * 1000 + r.choice([0, 0, 250, 500, 999]), 1000) if r else Fraction(5, 2)
             if name.endswith("_sr") or name.endswith("_bw"):
                 return Fraction(r.choice([1, 3, 1000, 12500, 10 ** 6, 8 * 10 ** 8])) if r else Fraction(1000)
             if name.endswith("_t0"):
@@ -571,9 +575,19 @@ def differential(interp, contract, inst, nm, pb, tol=None, real_call=None):
     Returns dict(status='ok'|'mismatch'|'skip', mismatches=[...], inputs=..., observed=..., expected=...)."""
     tol = tol or getattr(contract, "tol", None) or Tol()
     ctx = PathCtx()
+    ctx.concrete = True
+    V.CONCRETE_MODE = True
+    try:
+        return _differential(interp, contract, inst, nm, pb, tol, real_call, ctx)
+    finally:
+        V.CONCRETE_MODE = False
+
+
+def _differential(interp, contract, inst, nm, pb, tol, real_call, ctx):
+    from .ctx import Infeasible
     try:
         args, kwargs = inst.build(interp, ctx, nm)
-    except (Unsupported, PyExc) as e:
+    except (Unsupported, PyExc, Infeasible) as e:
         return {"status": "skip", "why": f"inputs not constructible: {e}"}
     c = SpecCtx(interp, ctx, contract)
     try:
